@@ -66,9 +66,34 @@ def get_trait_case(case):
     return dict(reproduced=bool(violated), violated=violated)
 
 
+def clone_case(case):
+    """C18 / C14: CTrait.clone(source) onto a trait that already has a definition releases what it replaces."""
+    from traits.api import Int
+    from traits.ctrait import CTrait
+
+    class H:
+        pass
+    t = CTrait(0)
+    h = H()
+    t.handler = h
+    other = Int().as_ctrait()
+    r0 = sys.getrefcount(h)
+    n = 50
+    for _ in range(n):
+        t.clone(other)
+        t.handler = h
+    leaked = sys.getrefcount(h) - r0
+    violated = []
+    if leaked:
+        violated.append("%d clone() calls onto a trait that held a handler leaked %d references to that handler" % (n, leaked))
+    if t.handler is not h or other.handler is None:
+        violated.append("clone / handler assignment did not behave: %r %r" % (t.handler, other.handler))
+    return dict(reproduced=bool(violated), violated=violated)
+
+
 def main():
     case = json.loads(sys.stdin.read())
-    out = {"get_trait": get_trait_case}[case["family"]](case)
+    out = {"get_trait": get_trait_case, "clone": clone_case}[case["family"]](case)
     print(json.dumps(out, default=repr))
 
 
